@@ -47,7 +47,11 @@ TAB2 = {'type': 'Table', 'pre': [-1.0, 1.0], 'scaled': [1.0, 4.0]}
 LIN1 = {'type': 'Linear', 'slope': 1.0, 'intercept': 5.0}   # identity slope: a tempting place for an in-place shortcut
 UNARY = [LIN, LIN1, POLY0, POLY1, POLY3, POLY4NS, TABA, TABD]
 POLY12 = {'type': 'Polynomial', 'coef': [1.0, 0.5, -0.25, 0.125, 0.0, 0.01, -0.002, 3e-4, 4e-5, -5e-6, 6e-7, 7e-8]}
-UNARY2 = [LIN2, {'type': 'Polynomial', 'coef': [-1.0, 0.0, 2.0]}, TAB2, POLY12]
+# tables whose OUTPUT column is not monotonic (only the input column has to be): out-of-range inputs clamp to the END-POINT value,
+# which is then not an extremum of the column (raw values 0 / 0.5 and 40 / 40.5 lie outside, on both sides)
+TABN = {'type': 'Table', 'pre': [5.0, 2.0, 4.0], 'scaled': [1.0, 2.0, 3.0]}
+TABM = {'type': 'Table', 'pre': [3.0, 5.0, 2.0], 'scaled': [3.0, 2.0, 1.0]}
+UNARY2 = [LIN2, {'type': 'Polynomial', 'coef': [-1.0, 0.0, 2.0]}, TAB2, POLY12, TABN, TABM]
 
 
 def graphs(depth, first_set=None):
